@@ -62,4 +62,76 @@ PROPS = {
         "trusted_base": COMMON_TB,
         "assumptions": [],
     },
+    "C03": {
+        "gens": ["C03"],
+        "rule": "content patterns {random, constant, two-valued repeating chunks, chunk index} x every boundary size class up to 6 (quick) / 64 (thorough) chunk groups (capped at 140 KB / 1.2 MB) x block sizes {0,1,2,3,5,8} / 0..8 x 22 creation entry points (sync/fsm x create / outboard into 5 store kinds / outboard_post_order / create_sized / init_from over stale stores). non-trivial = more than one block",
+        "theorem_part": "BaoProofs/Props/C03.lean",
+        "differential_part": "root and store bytes of every entry point equal the model and Spec.root / Spec.preOutboard / Spec.postOutboard; root equals the blake3 crate's hash; at bs 0 the pre-order outboard equals the bao crate's",
+        "trusted_base": COMMON_TB + ["BaoModel/Blake3.lean is BLAKE3 (checked against the blake3 crate on every case, never used in a proof)"],
+        "assumptions": ["identity with the blake3 and bao crates is differential"],
+    },
+    "C04": {
+        "gens": ["C04"],
+        "rule": "bao comparison: 14 blob sizes x sampled single byte ranges (start, len) incl. past-the-end; pruning rule: every chunk subset query on blobs up to 9 chunks x block sizes 0..3 (quick: half sampled), query classes on larger blobs for all block sizes. non-trivial = non-empty encoding",
+        "theorem_part": "BaoProofs/Props/C04.lean",
+        "differential_part": "size prefix + bs-0 encoding byte-identical to bao::encode::SliceExtractor, accepted by bao::decode::SliceDecoder; every encoding equals Spec.encode (pairs inside fully selected groups pruned)",
+        "trusted_base": COMMON_TB + ["bao crate used as external reference"],
+        "assumptions": ["a zero-length byte range is not 'a single range' (bao sends one chunk for it, bao-tree nothing)"],
+    },
+    "C02": {
+        "gens": ["C02"],
+        "rule": "every chunk-subset query (incl. boundaries past the end) on blobs of 0..10 chunks x bs 0..2 (quick: quarter sampled), query classes (all, last.., u64::MAX.., partial group, past-the-end, multi-range, random) on size classes up to 3/12 groups for bs in {0,1,2,3,5,8}; 5 sink kinds, sync and fsm decode_ranges, plus both decoders. non-trivial = non-empty stream",
+        "theorem_part": "BaoProofs/Props/C02.lean",
+        "differential_part": "decode_ranges of the real honest stream: Done, stream consumed, target = blob on selected chunks and untouched elsewhere, items = Spec.items",
+        "trusted_base": COMMON_TB,
+        "assumptions": [],
+    },
+    "C05": {
+        "gens": ["C05"],
+        "rule": "blobs up to 4/8 groups x bs 0..3 x 13 query classes x intact store + single byte corruptions (first/last byte of a chunk, either half of a stored pair, random) and pairs of them x 5 encoder flavours x 4 store kinds. non-trivial = non-empty honest encoding",
+        "theorem_part": "BaoProofs/Props/C05.lean",
+        "differential_part": "output is a prefix of Spec.encode; Ok iff no dependency corrupted; error variant is a hash mismatch",
+        "trusted_base": COMMON_TB,
+        "assumptions": [],
+    },
+    "C08": {
+        "gens": ["C08enc", "C08dec", "C03"],
+        "rule": "union of the C05 encoder cases (5 flavours side by side, intact and corrupted stores), the C01 tamper catalogue through both decoders side by side, and the C03 creation entry points. non-trivial = non-empty stream / encoding",
+        "theorem_part": "BaoProofs/Props/C08.lean",
+        "differential_part": "spec verdict is the agreement itself: validated encoders equal, plain encoders equal, plain = validated on intact stores, sync decoder output = fsm decoder output, item stream framed Size..Done|Error",
+        "trusted_base": COMMON_TB,
+        "assumptions": [],
+    },
+    "C01": {
+        "gens": ["C01"],
+        "rule": "blobs up to 3/6 groups x bs 0..3 x 13 query classes x streams: honest, single byte changed (6/30 positions, biased to the first 300 bytes), truncated, extended, first pair's halves swapped, later part replayed early, items spliced from another blob / query / block size, wrong claimed sizes, all-zero, random. sync and fsm. non-trivial = non-empty stream",
+        "theorem_part": "BaoProofs/Props/C01.lean",
+        "differential_part": "every yielded leaf equals the blob's bytes at its offset; every yielded pair is a true pair (of that node when the claimed size is right)",
+        "trusted_base": COMMON_TB,
+        "assumptions": ["BLAKE3 collision freedom (theorems); with a wrong claimed size parent labels are not meaningful, see DESIGN.md"],
+    },
+    "C09": {
+        "gens": ["C09"],
+        "rule": "blobs up to 3/6 groups x bs 0..3 x 13 query classes x truncation lengths (8/40 sampled + around 64- and 1088-byte boundaries) and single byte alterations; sync and fsm. non-trivial = non-empty stream",
+        "theorem_part": "BaoProofs/Props/C09.lean",
+        "differential_part": "items before the fault = Spec.items prefix; error names the item containing the cut / altered byte; io kind mapping; no panic",
+        "trusted_base": COMMON_TB,
+        "assumptions": [],
+    },
+    "C16": {
+        "gens": ["C16"],
+        "rule": "true blobs up to 3/6 groups x bs 0..3 x 13 query classes x claimed sizes (+-1, +-1024, x2, /2, 0, 1, 2^k + {-1,0,1025} for k up to 63) x streams (honest for the true geometry, honest for a blob of the claimed size, head/tail mixtures). non-trivial = non-empty stream",
+        "theorem_part": "BaoProofs/Props/C16.lean",
+        "differential_part": "Done with a query selecting the claimed last chunk implies claimed = true size; never a panic",
+        "trusted_base": COMMON_TB,
+        "assumptions": [],
+    },
+    "C20": {
+        "gens": ["C20"],
+        "rule": "blobs up to 3/6 groups (incl. single-leaf and empty) x bs 0..3 x 13 query classes x honest / truncated / altered streams with 0..70 bytes of trailing garbage, and the empty query: hash() and tree() probed before every step and after an error; reader remainder at Done. non-trivial = non-empty stream",
+        "theorem_part": "BaoProofs/Props/C20.lean",
+        "differential_part": "acc flag (every accessor call returned the constructor arguments, no panic); bytes left in the reader",
+        "trusted_base": COMMON_TB,
+        "assumptions": [],
+    },
 }
